@@ -74,6 +74,16 @@ for f, checks in FILES.items():
     rng.shuffle(ms)
     for m in ms[:maxper]:
         todo.append((f, checks, text, m))
+done = set()
+import glob
+for fn in glob.glob("/tmp/wt/mutsweep/results.*.jsonl"):
+    for l in open(fn):
+        try:
+            r = json.loads(l)
+            done.add((r["file"], r["line"], r["mutation"], r["new"]))
+        except Exception:
+            pass
+todo = [t for t in todo if (t[0], t[3][0] + 1, t[3][1], t[3][2].strip()) not in done]
 todo = [t for j, t in enumerate(todo) if j % nw == wid]
 print("worker %d: %d mutants" % (wid, len(todo)), flush=True)
 for (f, checks, text, (ln, what, newline)) in todo:
